@@ -166,3 +166,105 @@ Theorem C02_parse_data_is_source : forall (W : Type) (get : W -> Z -> outcome (l
   end.
 Proof. exact parse_data_is_generated. Qed.
 Print Assumptions C02_parse_data_is_source.
+(* ================= C02 at the level of DELIVERED DATA, for streams the library's own Muxer did not write =======   Spec/StreamSpec.v models well-formed transport streams independently of Model/Muxer.v: per PID a list of units -
+   PES units (reference encoding of any well-formed PES header of C12's domain, incl. CRC / pack header / header
+   stuffing, PES_packet_length 0 or exact, then the payload) on elementary-stream PIDs; PSI units (pointer_field,
+   filler, 1..n sections of Spec/PsiSpec.v, optional 0xFF tail) on PID 0 and on program-map PIDs - each unit cut at
+   ARBITRARY points into pieces, each piece in a conformant 188-byte packet of C11's domain (the adaptation field, with
+   any optional parts and stuffing bytes of any value, fills the rest), payload_unit_start on the first packet only,
+   continuity counters consecutive per PID; the stream is ANY interleaving of the PIDs' packet sequences in which a
+   program-map PID carries packets only after a PAT announcing it was completed, with filler packets (transport error
+   indicator, adaptation field only, null packets) anywhere.  Scoping S5 (DESIGN.md) is in the model in its weakest
+   form: no packet of a PSI unit but the last ends exactly on a section boundary or in the 0xFF tail (psi_mid: it ends
+   inside the pointer_field filler or strictly inside a section) - the accumulator takes a payload that ends on a
+   section boundary for a complete unit and the remaining sections are lost (notes/c02_s5_section_boundary_test.go.txt);
+   units of several sections spanning any number of packets are covered.  SP is the set of sections the section parser must decode (C13's domain):
+   C02_sections_c13 discharges the premise for PAT, PMT, SDT, NIT, EIT and TOT sections.
+   demux_all = successive NextData calls until ErrNoMorePackets (Proofs/RoundTripRun.v, as in C01).
+   Proofs: Proofs/StreamUnits.v (one unit), Proofs/StreamData.v (the stream). *)
+Require Import Gen.Types Model.DemuxFull Spec.StreamSpec Proofs.PsiParse Proofs.RoundTripDemux Proofs.RoundTripRun
+  Proofs.StreamUnits Proofs.StreamData.
+
+(* for every such stream the calls return exactly [expected]: per PID the units in order - a PES with its header
+   fields and exactly the concatenated payload, a PSI unit as one datum per section in order -, each non-final PES
+   when the next unit of its PID starts, each table unit at the packet that completes it, the last unit of every
+   PES PID at end of stream in PID order, then nothing; all Ok *)
+Theorem C02_data_exact : forall SP : list Z -> PSISection -> Prop, (forall b s, SP b s -> sec_parses b s) ->
+  forall rs, wf_stream SP rs ->
+  demux_all (StreamSpec.stream_bytes rs) = map Ok (expected rs).
+Proof. exact data_exact. Qed.
+Print Assumptions C02_data_exact.
+
+(* the per-PID projection, which does not depend on the interleaving: exactly the units of that PID, once, in order *)
+Theorem C02_data_per_pid : forall SP : list Z -> PSISection -> Prop, (forall b s, SP b s -> sec_parses b s) ->
+  forall rs, wf_stream SP rs ->
+  exists L, demux_all (StreamSpec.stream_bytes rs) = map Ok L /\
+    forall x, filter (fun d => DemuxerData_PID d =? x) L =
+              flat_map (fun c => unit_data x (cu_unit c) (sp_pkt (cu_first c))) (units_of (rs_pids rs) x).
+Proof. exact data_per_pid_delivered. Qed.
+Print Assumptions C02_data_per_pid.
+
+(* where the reader stands (C02_no_read_ahead combined with the stream model).  For the packet (x, u, k of n) that
+   completes a table unit: it delivers exactly the data of u; with L1 the data delivered by the packets before it,
+   call number |L1| + 1 returns the first of them having consumed the stream exactly up to the end of that packet -
+   what is left in the reader are the bytes of the packets behind it -, and the other sections of the unit are
+   returned by the next calls from the buffer, the reader not moving *)
+Theorem C02_pat_pmt_at_last_packet : forall SP : list Z -> PSISection -> Prop, (forall b s, SP b s -> sec_parses b s) ->
+  forall rs, wf_stream SP rs ->
+  forall pre x u k n sp post,
+  rs_events rs = pre ++ EPkt x u k n sp :: post -> completes u k n = true ->
+  exists p0, fst (ev_out (snd (delivered no_pend pre)) x u k n sp) = unit_data x u p0 /\
+  forall d ds, unit_data x u p0 = d :: ds ->
+  exists sn s' s'',
+    nd_iter (length (fst (delivered no_pend pre))) (init_dstate (new_reader (StreamSpec.stream_bytes rs) None Seekable) 188) =
+      (map Ok (fst (delivered no_pend pre)), sn) /\
+    next_data full_parsers None no_skip sn = (Ok d, s') /\
+    r_rest (d_reader s') = flat_map (fun e => spkt_bytes (ev_pkt e)) post /\
+    nd_iter (length ds) s' = (map Ok ds, s'') /\
+    r_rest (d_reader s'') = flat_map (fun e => spkt_bytes (ev_pkt e)) post.
+Proof. exact pat_pmt_at_last_packet. Qed.
+Print Assumptions C02_pat_pmt_at_last_packet.
+
+(* the same for ANY packet that makes the demuxer deliver something (a PES is returned by the call that reads the
+   first packet of the next unit of its PID, and not a byte further) *)
+Theorem C02_delivered_at : forall SP : list Z -> PSISection -> Prop, (forall b s, SP b s -> sec_parses b s) ->
+  forall rs, wf_stream SP rs ->
+  forall pre x u k n sp post d ds,
+  rs_events rs = pre ++ EPkt x u k n sp :: post ->
+  fst (ev_out (snd (delivered no_pend pre)) x u k n sp) = d :: ds ->
+  exists sn s' s'',
+    nd_iter (length (fst (delivered no_pend pre))) (init_dstate (new_reader (StreamSpec.stream_bytes rs) None Seekable) 188) =
+      (map Ok (fst (delivered no_pend pre)), sn) /\
+    next_data full_parsers None no_skip sn = (Ok d, s') /\
+    r_rest (d_reader s') = flat_map (fun e => spkt_bytes (ev_pkt e)) post /\
+    nd_iter (length ds) s' = (map Ok ds, s'') /\
+    r_rest (d_reader s'') = flat_map (fun e => spkt_bytes (ev_pkt e)) post.
+Proof. exact delivered_at_all. Qed.
+Print Assumptions C02_delivered_at.
+
+(* the section premise is C13: PAT, PMT, SDT, NIT, EIT, TOT sections with descriptor loops in any domain satisfying
+   C13's descriptor premises (C13_no_desc_premises, C13_user_desc_premises) *)
+Theorem C02_sections_c13 : forall b s, c13_sections b s -> sec_parses b s.
+Proof. exact c13_sections_parse. Qed.
+Print Assumptions C02_sections_c13.
+
+(* the stream model is inhabited by every admissible cut: any unit, cut into pieces of at most 184 bytes (for a PSI
+   unit: none but the last ending on a section boundary, S5), carried by the packets built around the pieces with stuffing of any value, is a carriage *)
+Theorem C02_every_cut_is_a_carriage : forall (SP : list Z -> PSISection -> Prop) x cc u sizes sv,
+  0 <= x < 2 ^ 13 -> Base.Bits.byte_ok sv -> unit_ok SP u ->
+  cut_ok_b u (cut sizes (unit_bytes u)) = true -> carried_ok SP x (carry x cc u sizes sv).
+Proof. exact carry_ok. Qed.
+Print Assumptions C02_every_cut_is_a_carriage.
+
+(* Example: PAT (PID 0, two sections and a 0xFF tail, cut in the middle of the first section) and PMT (PID 4096,
+   pointer_field 2, cut into three packets of 8 / 10 / 11 bytes with adaptation-field stuffing of value 0x42), a video PID 256 carrying two PES (PTS, CRC, pack header, header stuffing;
+   the first cut into two packets) and an audio PID 257 carrying one bounded PES, interleaved, with a null packet, an
+   adaptation-field-only packet and a packet with the transport_error_indicator in between: the stream is well formed,
+   and the model run on its 12 x 188 bytes (vm_compute) returns the two PAT sections, the PMT when its third packet is
+   read, the first video PES when the second starts, and at end of stream the second video PES and the audio PES *)
+Example C02_data_example :
+  wf_stream c13_sections ex_stream /\
+  demux_all (StreamSpec.stream_bytes ex_stream) = map Ok (expected ex_stream) /\
+  map DemuxerData_PID (expected ex_stream) = [0; 0; 4096; 256; 256; 257] /\
+  length (StreamSpec.stream_bytes ex_stream) = (12 * 188)%nat.
+Proof. split; [exact ex_stream_wf|]. vm_compute. repeat split; reflexivity. Qed.
